@@ -61,6 +61,33 @@ Definition law_gc (lj fresh : option gjob) (lo hi : Z) (del : option Z) (rqs : l
   | None => true
   end.
 
+(* the finish time is the RECORDED one: an object that is otherwise eligible
+   (finished, TTL set, not being deleted) but carries no
+   status.state.lastTransitionTime is never deleted and never re-queued with a
+   delay - whatever its creation time; when it is the lister's copy (or the
+   lister's copy was due and it is the fresh one) the call reports the error *)
+Definition eligible_no_finish (j : gjob) : bool :=
+  finished (g_phase j) && is_some (g_ttl j) && negb (g_deleting j) && negb (is_some (g_finish j)).
+
+Definition law_gc_no_finish (lj fresh : option gjob) (lo : Z) (del : option Z) (rqs : list Z) (err : bool) : bool :=
+  let quiet_error := err && negb (is_some del) && match rqs with [] => true | _ => false end in
+  match lj with
+  | Some j =>
+    if eligible_no_finish j then quiet_error
+    else
+      match fresh, expiry j with
+      | Some f, Some e =>
+        (* the lister's copy was due before the call began, so the fresh copy was examined *)
+        if negb (g_deleting j) && (e <=? lo) && eligible_no_finish f then quiet_error else true
+      | _, _ => true
+      end
+  | None => true
+  end &&
+  match fresh, del with
+  | Some f, Some _ => is_some (g_finish f)
+  | _, _ => true
+  end.
+
 (* ---------------- cron: schedule choice ---------------- *)
 
 Fixpoint increasing (l : list Z) : bool :=
